@@ -358,6 +358,9 @@ def run(chk):
                 chk.violation(r_gu, key, "%s rescales %s under the guard %s.has_value(): %s is rescaled a second time and %s keeps the GRIDUNIT length unit (save() then writes a grid of another size)" % (f["q"], tgt, g, tgt, g), f["file"], c["l"])
     if sites == 0:
         raise core.AnalysisBroken("no apply_GRIDUNIT call found in EclipseGrid.cpp")
+    unmapped = [t for t in applied if t not in GEOM]
+    if unmapped:
+        raise core.AnalysisBroken("apply_GRIDUNIT is called with an argument that is not one of the geometry members (%s): the once-per-array count cannot be decided" % unmapped)
     for g in GEOM:
         n_ = len(applied.get(g, []))
         chk.instance(r_gu, "once:" + g, sample=dict(array=g, applications=applied.get(g, [])))
